@@ -1334,6 +1334,23 @@ fn run_qy(o: &mut CaseOut, data: &Item, index: &Item, mode: qy::Mode, qseed: u64
     for q in &queries {
         o.count(&format!("query_ops[{}]", q.class()), 1);
     }
+    // does the operation re-establish the reader position by seeking? (a sequential read does not, and neither does a
+    // region query for which the index has no chunk: where they leave the reader depends on the operation before)
+    let seeks: Vec<bool> = {
+        let lists = if mode.uses_bgzf() { guard::catch(|| qy::chunk_lists(mode, &data.bytes, &index.bytes, &queries)).ok().and_then(|r| r.ok()) } else { None };
+        queries
+            .iter()
+            .enumerate()
+            .map(|(i, q)| match q {
+                qy::Q::Read(_) => false,
+                qy::Q::Rewind | qy::Q::Unmapped => true,
+                _ => match &lists {
+                    Some(l) => l.get(i).cloned().flatten().map(|c| !c.is_empty()).unwrap_or(false),
+                    None => true,
+                },
+            })
+            .collect()
+    };
     let frames = if mode.uses_bgzf() { frames_of(&data.bytes) } else { Vec::new() };
     let bytes = Arc::new(data.bytes.clone());
     for cfg in cfgs {
@@ -1361,15 +1378,15 @@ fn run_qy(o: &mut CaseOut, data: &Item, index: &Item, mode: qy::Mode, qseed: u64
             Ok(Ok(got_raw)) => {
                 let got = norm(strip_all(got_raw.clone()));
                 // every operation of the history is compared on its own: a query / rewind starts with a seek; a sequential
-                // read depends on where the previous operation left the reader, so after a difference sequential reads
-                // count as tainted until the next seeking operation
+                // read (and a query without chunks) depends on where the previous operation left the reader, so after a
+                // difference such operations count as tainted until the next seeking operation
                 let (es, gs) = (segments(&expected), segments(&got));
                 let mut sigs: Vec<String> = Vec::new();
                 let mut tainted = false;
                 for qi in 0..es.len().max(gs.len()) {
                     let (e, g) = (es.get(qi).copied().unwrap_or(&[]), gs.get(qi).copied().unwrap_or(&[]));
                     let q = queries.get(qi);
-                    if !matches!(q, Some(qy::Q::Read(_))) {
+                    if seeks.get(qi).copied().unwrap_or(true) {
                         tainted = false;
                     }
                     if tainted {
@@ -1424,10 +1441,19 @@ fn run_qy(o: &mut CaseOut, data: &Item, index: &Item, mode: qy::Mode, qseed: u64
                         continue;
                     }
                     sigs.push(sig.clone());
+                    let chunks_note = if mode.is_raw() {
+                        let one: Vec<qy::Q> = q.into_iter().cloned().collect();
+                        match guard::catch(|| qy::chunk_lists(mode, &data.bytes, &index.bytes, &one)) {
+                            Ok(Ok(l)) => format!(" chunks (compressed offset:in-block offset): {:?};", l.first().cloned().flatten().map(|c| c.iter().map(|c| format!("{}:{}-{}:{}", c.start().compressed(), c.start().uncompressed(), c.end().compressed(), c.end().uncompressed())).collect::<Vec<_>>())),
+                            _ => String::new(),
+                        }
+                    } else {
+                        String::new()
+                    };
                     o.violation(
                         sig,
                         format!(
-                            "{} + {}: operation #{qi} {:?} of the history {:?}: element #{i} of its results: sync: {:?}; async: {:?} (sync {} elements, async {}; V@n = uncompressed offset denoted by the BGZF reader's virtual position after the operation) [{}]",
+                            "{} + {}:{chunks_note} operation #{qi} {:?} of the history {:?}: element #{i} of its results: sync: {:?}; async: {:?} (sync {} elements, async {}; V@n = uncompressed offset denoted by the BGZF reader's virtual position after the operation) [{}]",
                             data.name,
                             index.name,
                             q.map(|q| q.describe()),
